@@ -218,3 +218,305 @@ Proof.
     intros I. apply in_app_or in I. destruct I as [I|I]; [|exact (IH F P I)].
     cbn [In] in I. destruct I as [I|[I|[]]]; discriminate I.
 Qed.
+
+(* ---------------------------------------------------------- schedule level -- *)
+
+Lemma chunks_of_cons o os : chunks_of (o :: os) = obs_chunk o ++ chunks_of os.
+Proof. destruct o; reflexivity. Qed.
+
+Lemma emit_all_app a b : emit_all (a ++ b) = emit_all a ++ emit_all b.
+Proof. unfold emit_all. apply flat_map_app. Qed.
+
+Lemma emit_no_end pre : no_end pre = true -> emit pre = emit_all pre.
+Proof.
+  induction pre as [|e r IH]; [reflexivity|]. cbn [no_end forallb]. intros N.
+  apply andb_true_iff in N. destruct N as [N1 N2]. fold (no_end r) in N2.
+  destruct e; cbn [emit emit_all flat_map ev_chunks]; try discriminate N1;
+    rewrite (IH N2); reflexivity.
+Qed.
+
+Lemma emit_with_end pre : no_end pre = true -> emit (pre ++ [EEnd]) = emit_all (pre ++ [EEnd]).
+Proof.
+  induction pre as [|e r IH]; [reflexivity|]. cbn [no_end forallb]. intros N.
+  apply andb_true_iff in N. destruct N as [N1 N2]. fold (no_end r) in N2.
+  destruct e; cbn [app emit emit_all flat_map ev_chunks]; try discriminate N1;
+    rewrite (IH N2); reflexivity.
+Qed.
+
+Ltac step_cases X s :=
+  repeat match type of X with
+         | context [if ?b then _ else _] => destruct b eqn:?
+         | context [match st_buf s with _ => _ end] => destruct (st_buf s) eqn:?
+         | context [match st_q s with _ => _ end] => destruct (st_q s) eqn:?
+         | context [match ?i with IResp _ => _ | IEnd => _ end] => destruct i
+         end.
+
+Lemma step_chunks s a s' o e :
+  step s a = (s', o, e) -> obs_chunk o ++ st_buf s' = st_buf s ++ emit_all e.
+Proof.
+  intros X. destruct a; cbn [step] in X; step_cases X s;
+    inversion X; subst; cbn [obs_chunk st_buf emit_all flat_map ev_chunks app commit];
+    rewrite ?app_nil_r; try reflexivity; try congruence.
+Qed.
+
+Lemma run_cons s a r :
+  run s (a :: r) =
+  (fst (fst (run (fst (fst (step s a))) r)),
+   snd (fst (step s a)) :: snd (fst (run (fst (fst (step s a))) r)),
+   snd (step s a) ++ snd (run (fst (fst (step s a))) r)).
+Proof.
+  cbn [run]. destruct (step s a) as [[s1 o] e]. cbn [fst snd].
+  destruct (run s1 r) as [[s2 os] es]. reflexivity.
+Qed.
+
+Lemma run_chunks acts : forall s s' os evs,
+  run s acts = (s', os, evs) -> chunks_of os ++ st_buf s' = st_buf s ++ emit_all evs.
+Proof.
+  induction acts as [|a r IH]; intros s s' os evs X.
+  - inversion X; subst. cbn. rewrite app_nil_r. reflexivity.
+  - rewrite run_cons in X. destruct (step s a) as [[s1 o] e] eqn:S1. cbn [fst snd] in X.
+    destruct (run s1 r) as [[s2 os2] es2] eqn:R. cbn [fst snd] in X. inversion X; subst.
+    rewrite chunks_of_cons, emit_all_app, <- app_assoc, (IH _ _ _ _ R), app_assoc,
+      (step_chunks _ _ _ _ _ S1), <- app_assoc. reflexivity.
+Qed.
+
+(* FIFO: every response that arrived before the close is either already
+   selected, in order, or still queued; none is lost or duplicated *)
+Lemma queue_resps_app a b : queue_resps (a ++ b) = queue_resps a ++ queue_resps b.
+Proof. induction a as [|[j|] a IH]; cbn; rewrite ?IH; reflexivity. Qed.
+
+Lemma step_fifo s a s' o e :
+  step s a = (s', o, e) ->
+  event_resps e ++ queue_resps (st_q s') = queue_resps (st_q s) ++ arrivals (st_closed s) [a] /\
+  st_closed s' = (st_closed s || match a with AClose => true | _ => false end).
+Proof.
+  intros X. destruct a; cbn [step] in X; step_cases X s;
+    inversion X; subst;
+    cbn [event_resps st_q st_closed arrivals queue_resps app commit fst snd
+         resp_chunks_gen tick_chunks_gen end_chunks_gen];
+    rewrite ?queue_resps_app, ?app_nil_r, ?orb_false_r, ?orb_true_r; cbn [queue_resps];
+    rewrite ?app_nil_r; try (split; reflexivity); try (split; congruence);
+    try (match goal with H : st_q _ = _ |- _ => rewrite H end; cbn [queue_resps]; split; reflexivity).
+Qed.
+
+Lemma arrivals_cons c a r :
+  arrivals c (a :: r) =
+  arrivals c [a] ++ arrivals (c || match a with AClose => true | _ => false end) r.
+Proof.
+  destruct a; cbn [arrivals]; rewrite ?orb_false_r, ?orb_true_r; try reflexivity.
+  destruct c; reflexivity.
+Qed.
+
+Lemma run_fifo acts : forall s s' os evs,
+  run s acts = (s', os, evs) ->
+  event_resps evs ++ queue_resps (st_q s') = queue_resps (st_q s) ++ arrivals (st_closed s) acts.
+Proof.
+  assert (EA : forall a b, event_resps (a ++ b) = event_resps a ++ event_resps b).
+  { induction a as [|[j| | |] a IH]; intros b; cbn; rewrite ?IH; reflexivity. }
+  induction acts as [|a r IH]; intros s s' os evs X.
+  - inversion X; subst. cbn. rewrite app_nil_r. reflexivity.
+  - rewrite run_cons in X. destruct (step s a) as [[s1 o] e] eqn:S1. cbn [fst snd] in X.
+    destruct (run s1 r) as [[s2 os2] es2] eqn:R. cbn [fst snd] in X. inversion X; subst.
+    destruct (step_fifo _ _ _ _ _ S1) as [F C].
+    rewrite EA, <- app_assoc, (IH _ _ _ _ R), C, app_assoc, F, <- app_assoc.
+    rewrite (arrivals_cons (st_closed s) a r). reflexivity.
+Qed.
+
+(* the end of the input is the last thing the input yields *)
+Definition wf (s : st) : Prop :=
+  (st_fin s = true -> st_q s = [] /\ st_closed s = true) /\
+  exists js, st_q s = map IResp js ++ (if st_closed s && negb (st_fin s) then [IEnd] else []).
+
+Lemma wf_init : wf st_init.
+Proof. split; [discriminate|]. exists []. reflexivity. Qed.
+
+Lemma map_iresp_cons_inv js (it : item) q x :
+  it :: q = map IResp js ++ x ->
+  (exists j js', js = j :: js' /\ it = IResp j /\ q = map IResp js' ++ x) \/
+  (js = [] /\ it :: q = x).
+Proof.
+  destruct js as [|j js']; cbn [map app]; intros E.
+  - right. split; [reflexivity|exact E].
+  - left. inversion E; subst. exists j, js'. repeat split.
+Qed.
+
+Lemma step_wf s a s' o e :
+  wf s -> step s a = (s', o, e) ->
+  wf s' /\
+  (st_fin s = true -> e = [] /\ st_fin s' = true) /\
+  (st_fin s = false ->
+     (st_fin s' = false /\ no_end e = true) \/ (st_fin s' = true /\ e = [EEnd])).
+Proof.
+  intros W X. pose proof W as [W1 [js W2]]. destruct a as [json| | |choice]; cbn [step] in X.
+  - (* arrive *)
+    destruct (st_closed s) eqn:C; inversion X; subst.
+    + split; [exact W|].
+      split; [intros F; split; [reflexivity|exact F]|intros F; left; split; [exact F|reflexivity]].
+    + split.
+      * split; cbn [st_fin st_q st_closed].
+        { intros F. destruct (W1 F) as [_ K]. congruence. }
+        { exists (js ++ [json]). rewrite W2. cbn [andb]. rewrite map_app, !app_nil_r. reflexivity. }
+      * cbn [st_fin]. split; [intros F; split; [reflexivity|exact F]|intros F; left; split; [exact F|reflexivity]].
+  - (* close *)
+    destruct (st_closed s) eqn:C; inversion X; subst.
+    + split; [exact W|].
+      split; [intros F; split; [reflexivity|exact F]|intros F; left; split; [exact F|reflexivity]].
+    + assert (NF : st_fin s = false).
+      { destruct (st_fin s) eqn:F; [|reflexivity]. destruct (W1 eq_refl) as [_ K]. congruence. }
+      split.
+      * split; cbn [st_fin st_q st_closed].
+        { rewrite NF. discriminate. }
+        { exists js. rewrite W2, NF. cbn [andb negb]. rewrite app_nil_r. reflexivity. }
+      * cbn [st_fin]. split; [intros F; split; [reflexivity|exact F]|intros F; left; split; [exact F|reflexivity]].
+  - (* fire *)
+    inversion X; subst. split; [exact W|].
+    cbn [st_fin]. split; [intros F; split; [reflexivity|exact F]|intros F; left; split; [exact F|reflexivity]].
+  - (* poll *)
+    destruct (st_buf s) as [|x b] eqn:B.
+    + destruct (st_fin s) eqn:F.
+      { inversion X; subst. split; [exact W|].
+        rewrite F. split; [intros _; split; reflexivity|discriminate]. }
+      destruct (st_q s) as [|it q'] eqn:Q.
+      * destruct (st_due s); inversion X; subst.
+        { split.
+          - split; cbn [commit tick_chunks_gen st_fin st_q st_closed fst]; [discriminate|].
+            exists js. rewrite <- W2. reflexivity.
+          - cbn [commit tick_chunks_gen st_fin fst]. split; [discriminate|].
+            intros _. left. split; reflexivity. }
+        { split; [exact W|].
+          rewrite F. split; [discriminate|]. intros _. left. split; reflexivity. }
+      * destruct (negb (st_due s) || choice).
+        { apply map_iresp_cons_inv in W2. destruct W2 as [(j & js' & -> & -> & Q')|[-> E]].
+          - inversion X; subst. split.
+            + split; cbn [commit resp_chunks_gen st_fin st_q st_closed fst]; [discriminate|].
+              exists js'. reflexivity.
+            + cbn [commit resp_chunks_gen st_fin fst]. split; [discriminate|].
+              intros _. left. split; reflexivity.
+          - destruct (st_closed s) eqn:C; cbn [andb negb] in E; [|discriminate E].
+            inversion E; subst. inversion X; subst. split.
+            + split; cbn [commit end_chunks_gen st_fin st_q st_closed fst].
+              * intros _. split; reflexivity.
+              * exists []. reflexivity.
+            + cbn [commit end_chunks_gen st_fin fst]. split; [discriminate|].
+              intros _. right. split; reflexivity. }
+        { inversion X; subst. split.
+          - split; cbn [commit tick_chunks_gen st_fin st_q st_closed fst]; [discriminate|].
+            exists js. exact W2.
+          - cbn [commit tick_chunks_gen st_fin fst]. split; [discriminate|].
+            intros _. left. split; reflexivity. }
+    + inversion X; subst. split; [exact W|].
+      cbn [st_fin]. split; [intros F; split; [reflexivity|exact F]|intros F; left; split; [exact F|reflexivity]].
+Qed.
+
+Lemma no_end_app a b : no_end (a ++ b) = no_end a && no_end b.
+Proof. unfold no_end. apply forallb_app. Qed.
+
+Lemma run_wf acts : forall s s' os evs,
+  wf s -> run s acts = (s', os, evs) ->
+  wf s' /\
+  (st_fin s = true -> evs = [] /\ st_fin s' = true) /\
+  (st_fin s = false ->
+     (st_fin s' = false /\ no_end evs = true) \/
+     (st_fin s' = true /\ exists pre, evs = pre ++ [EEnd] /\ no_end pre = true)).
+Proof.
+  induction acts as [|a r IH]; intros s s' os evs W X.
+  - inversion X; subst. split; [exact W|]. split; [intros F; split; [reflexivity|exact F]|].
+    intros F. left. split; [exact F|reflexivity].
+  - rewrite run_cons in X. destruct (step s a) as [[s1 o] e] eqn:S1. cbn [fst snd] in X.
+    destruct (run s1 r) as [[s2 os2] es2] eqn:R. cbn [fst snd] in X. inversion X; subst.
+    destruct (step_wf _ _ _ _ _ W S1) as (W1 & A & B).
+    destruct (IH _ _ _ _ W1 R) as (W2 & A2 & B2).
+    split; [exact W2|]. split.
+    + intros F. destruct (A F) as [-> F1]. destruct (A2 F1) as [-> F2]. split; [reflexivity|exact F2].
+    + intros F. destruct (B F) as [[F1 N]|[F1 ->]].
+      * destruct (B2 F1) as [[F2 N2]|[F2 (pre & -> & N2)]].
+        { left. split; [exact F2|]. rewrite no_end_app, N, N2. reflexivity. }
+        { right. split; [exact F2|]. exists (e ++ pre). split; [rewrite app_assoc; reflexivity|].
+          rewrite no_end_app, N, N2. reflexivity. }
+      * destruct (A2 F1) as [-> F2]. right. split; [exact F2|]. exists []. split; reflexivity.
+Qed.
+
+
+Lemma step_ticks s a s' o e :
+  step s a = (s', o, e) ->
+  (ticks e + b2n (st_due s') <= b2n (st_due s) + b2n (is_fire a))%nat.
+Proof.
+  intros X. destruct (st_due s) eqn:D; destruct a; cbn [step] in X; rewrite ?D in X;
+    step_cases X s; inversion X; subst;
+    cbn [ticks filter is_tick length st_due commit fst resp_chunks_gen tick_chunks_gen
+         end_chunks_gen is_fire b2n negb orb] in *;
+    rewrite ?D; cbn [b2n]; try discriminate; try lia.
+Qed.
+
+Lemma run_ticks acts : forall s s' os evs,
+  run s acts = (s', os, evs) ->
+  (ticks evs + b2n (st_due s') <= b2n (st_due s) + fires acts)%nat.
+Proof.
+  induction acts as [|a r IH]; intros s s' os evs X.
+  - inversion X; subst. cbn. lia.
+  - rewrite run_cons in X. destruct (step s a) as [[s1 o] e] eqn:S1. cbn [fst snd] in X.
+    destruct (run s1 r) as [[s2 os2] es2] eqn:R. cbn [fst snd] in X. inversion X; subst.
+    pose proof (step_ticks _ _ _ _ _ S1). pose proof (IH _ _ _ _ R).
+    unfold ticks in *. rewrite filter_app, app_length.
+    unfold fires in *. cbn [filter]. destruct (is_fire a); cbn [length b2n] in *; lia.
+Qed.
+
+(* nothing after the end: a finished, drained generator only answers None *)
+Lemma run_after_end acts : forall s s' os evs,
+  st_fin s = true -> st_buf s = [] -> run s acts = (s', os, evs) ->
+  Forall (fun o => o = ONone \/ o = OUnit) os /\ evs = [] /\ st_buf s' = [] /\ st_fin s' = true.
+Proof.
+  induction acts as [|a r IH]; intros s s' os evs F B X.
+  - inversion X; subst. repeat split; auto.
+  - rewrite run_cons in X. destruct (step s a) as [[s1 o] e] eqn:S1. cbn [fst snd] in X.
+    destruct (run s1 r) as [[s2 os2] es2] eqn:R. cbn [fst snd] in X. inversion X; subst.
+    assert (K : (o = ONone \/ o = OUnit) /\ e = [] /\ st_buf s1 = [] /\ st_fin s1 = true).
+    { destruct a; cbn [step] in S1; rewrite ?B, ?F in S1;
+        try (destruct (st_closed s)); inversion S1; subst; cbn [st_buf st_fin]; auto. }
+    destruct K as (K1 & -> & K3 & K4).
+    destruct (IH _ _ _ _ K4 K3 R) as (I1 & -> & I3 & I4).
+    repeat split; auto.
+Qed.
+
+Lemma payloads_ok_of evs : forallb no_cr (event_resps evs) = true -> payloads_ok evs = true.
+Proof.
+  induction evs as [|e r IH]; [reflexivity|].
+  destruct e; cbn [event_resps forallb payloads_ok]; auto.
+  intros X. apply andb_true_iff in X. destruct X as [X1 X2]. rewrite X1, (IH X2). reflexivity.
+Qed.
+
+Lemma finished_with_end pre : finished (pre ++ [EEnd]) = true.
+Proof. unfold finished. rewrite existsb_app. cbn. apply orb_true_r. Qed.
+
+(* every schedule: once the consumer has drained a closed stream, the bytes
+   it received re-read as exactly the selected events, which are the arrived
+   responses in order with at most one heartbeat per timer firing, and the end
+   of the input was the last selection *)
+Theorem sched_framed acts s' os evs :
+  run st_init acts = (s', os, evs) ->
+  st_fin s' = true -> st_buf s' = [] ->
+  forallb no_cr (arrivals false acts) = true ->
+  read_multipart (concat (chunks_of os)) = Some (expected evs, crlf) /\
+  event_resps evs = arrivals false acts /\
+  (ticks evs <= fires acts)%nat /\
+  (exists pre, evs = pre ++ [EEnd] /\ no_end pre = true) /\
+  emit evs = chunks_of os.
+Proof.
+  intros R F B NC.
+  pose proof (run_chunks _ _ _ _ _ R) as C. rewrite B, app_nil_r in C. cbn [st_init st_buf app] in C.
+  destruct (run_wf _ _ _ _ _ wf_init R) as (W & _ & S). destruct (S eq_refl) as [[F' _]|[_ (pre & E & N)]];
+    [congruence|].
+  pose proof (run_fifo _ _ _ _ _ R) as Q. cbn [st_init st_q st_closed queue_resps app] in Q.
+  destruct W as [W1 _]. destruct (W1 F) as [Q0 _]. rewrite Q0 in Q. cbn [queue_resps] in Q.
+  rewrite app_nil_r in Q.
+  pose proof (run_ticks _ _ _ _ _ R) as T. cbn [st_init st_due b2n] in T.
+  assert (EM : emit evs = chunks_of os) by (rewrite C, E; apply emit_with_end; exact N).
+  repeat split.
+  - rewrite <- EM. apply framed.
+    + rewrite E. apply finished_with_end.
+    + apply payloads_ok_of. rewrite Q. exact NC.
+  - exact Q.
+  - lia.
+  - exists pre. split; assumption.
+  - exact EM.
+Qed.
